@@ -54,6 +54,11 @@ def model(rng, i):
                           'value': rng.choice([0, 0, -1, -0.5])}]
         if rng.random() < 0.5:
             spec['motor']['i0'] = spec['motor']['imax'] = None
+    if m in (5, 6) and rng.random() < 0.7:
+        # state-keyed rules (position ramp, braking before a target, current limit): rule objects that live through reset/rerun
+        from . import c15 as C15
+        kinds = ['reach', 'startprop', 'startlim'] if spec['motor']['i0'] is not None else ['reach']
+        spec['rules'].append(C15.make_rule(rng, spec, rng.choice(kinds), sim=True))
     return spec, n
 
 
@@ -185,6 +190,10 @@ def pair_reset(ctx, i, spec, n, rng, case):
         u = rng.choice(GEN.time_units_for(GEN.qsi(dt)))
         d2 = GEN.reexpress(dt, u)
         block.append({'op': 'run', 'dt': d2, 'T': GEN.reexpress(GEN.mulq(dt, rng.randint(3, 20)), u)})
+    if cont and spec.get('rules') and rng.random() < 0.5:
+        # the control is an argument of each call: one segment of the block runs WITHOUT it, on the same solver
+        block[rng.randrange(2)]['control'] = False
+        ctx.count('blocks_mixing_controlled_and_uncontrolled_runs')
     new_solver = rng.random() < 0.5
     sp = copy.deepcopy(spec)
     sp['schedule'] = block + [{'op': 'reset'}, {'op': 'reapply'}] + ([{'op': 'newsolver'}] if new_solver else []) + copy.deepcopy(block)
@@ -213,7 +222,7 @@ def pair_reset(ctx, i, spec, n, rng, case):
         return
     ana = MON.Ana(spec, t1, r1)
     if rely_on_reset_pwm:
-        sgn = lambda x: (x > 0) - (x < 0)
+        sgn = lambda x: (float(x) > 0) - (float(x) < 0)
         if ana.nums['self_locking'] and t1.pwm and sgn(t1.pwm[0]) != sgn(r1[0]['pwm_before']):
             ctx.count('reset_pwm_guard_excluded')
             return
